@@ -3,6 +3,7 @@ package message
 import (
 	"encoding/binary"
 
+	"github.com/free5gc/ike/internal/verifhook"
 	"github.com/pkg/errors"
 )
 
@@ -117,6 +118,7 @@ func (trafficSelector *TrafficSelectorInitiator) Unmarshal(b []byte) error {
 		b = b[4:]
 
 		for ; numberOfSPI > 0; numberOfSPI-- {
+			verifhook.At("message.tsi.selector", len(b))
 			// bounds checking
 			if len(b) < 4 {
 				return errors.Errorf(
